@@ -145,11 +145,11 @@ shape("FlowPool", {
     "populate": Contract(
         "<abstract>", "FlowProposal.populate",
         params={"worst_point": LP_ROW, "N": "Int"}, trusted=True,
-        trusted_reason="ASSUMED here: the population loop (rejection "
-        "sampling with the flow; its building blocks backward_pass / "
-        "check_prior_bounds are proved to return in-bounds points only) "
-        "fills a pool of exactly N rows with the model's prior and "
-        "likelihood and a fresh permutation as index list",
+        trusted_reason="the postcondition proved for FlowProposal.populate "
+        "below (variants c09 / c09-acc), restated for the attributes draw "
+        "uses, under the ASSUMPTION that the max_samples escape hatch of "
+        "the accumulate-weights mode is not taken (then the pool may hold "
+        "fewer than N rows, possibly none, and draw's pop() would fail)",
         requires=["N >= 1"],
         modifies=["self.samples", "self.indices", "self.populated"],
         ensures=pool_inv() + ["len(self.samples) == N",
@@ -179,5 +179,166 @@ contract(
         "InBounds(result['x']) and result['logP'] == LPr(result['x']) and "
         "result['logL'] == LL(result['x'])",
         "self.populated == (len(self.indices) > 0)",
+    ],
+)
+
+# ---- FlowProposal.populate: the rejection loop that fills the flow pool ------
+from .shapes import LP
+from . import c08_flows as _c08        # noqa: F401  (FlowModel / AltDistAbs)
+LPF_ = "nessai/livepoint.py"
+ZT = "Seq(Sort(Zs))"
+PT = "Seq(Sort(P))"
+# rows as backward_pass returns them: abstract points (sort P)
+contract(LPF_, "empty_structured_array", variant_name="c09", props=["C09"],
+         trusted=True, verify=False,
+         trusted_reason="allocation of n rows of the given dtype (as "
+         "abstract points; field defaults: C18's concern)",
+         params={"n": "Int", "dtype": "Any"}, requires=["n >= 0"],
+         returns=PT, ensures=["len(result) == n"])
+shape("FlowPopulate", {
+    # what forward_pass / backward_pass (C08 contracts) talk about
+    "flow": "Obj(FlowModel)", "alt_dist": "Opt(Obj(AltDistAbs))",
+    "prime_parameters": "Any", "model": "Obj(PopModel)",
+    # configuration
+    "initialised": "Bool", "fixed_radius": "Real",
+    "compute_radius_with_all": "Bool", "training_data": "Any",
+    "max_radius": "Real", "min_radius": "Real", "truncate_log_q": "Bool",
+    "accumulate_weights": "Bool", "use_x_prime_prior": "PyConst(False)",
+    "drawsize": "Int", "population_dtype": "Any", "_plot_pool": "Bool",
+    "check_acceptance": "Bool",
+    # state
+    "r": "Real", "indices": "List(Int)", "x": PT, "samples": LP_ARR,
+    "population_time": "Any", "acceptance": "List(Real)",
+    "population_acceptance": "Any", "populated_count": "Int",
+    "populated": "Bool", "_checked_population": "Bool",
+}, cls="FlowProposal", methods={
+    "radius": Contract("<abstract>", "FlowProposal.radius",
+                       params={"z": "Any"}, trusted=True, returns="Real",
+                       trusted_reason="latent radius of the worst point "
+                       "(a number; irrelevant to the pool invariant)"),
+    "get_alt_distribution": Contract(
+        "<abstract>", "FlowProposal.get_alt_distribution", trusted=True,
+        trusted_reason="optional alternative latent distribution",
+        returns="Opt(Obj(AltDistAbs))"),
+    "prep_latent_prior": Contract(
+        "<abstract>", "FlowProposal.prep_latent_prior", trusted=True,
+        trusted_reason="configures the latent sampler", modifies=[]),
+    "draw_latent_prior": Contract(
+        "<abstract>", "FlowProposal.draw_latent_prior",
+        params={"n": "Int"}, trusted=True,
+        trusted_reason="n latent draws inside the radius (numerics of the "
+        "truncated samplers are not decided)", returns=ZT,
+        ensures=["len(result) == n"]),
+    "compute_weights": Contract(
+        "<abstract>", "FlowProposal.compute_weights",
+        params={"x": PT, "log_q": "Seq(Real)"}, trusted=True,
+        trusted_reason="log prior - log q per point (some reals)",
+        returns="Seq(Real)", ensures=["len(result) == len(x)"]),
+    "convert_to_samples": Contract(
+        "<abstract>", "FlowProposal.convert_to_samples",
+        params={"x": PT, "plot": "Any"}, trusted=True,
+        trusted_reason="use_x_prime_prior=False: fills logP with the "
+        "model's log-prior and repacks the fields (structured-array "
+        "plumbing: C18's concern); the points are kept",
+        returns=LP_ARR,
+        ensures=["len(result) == len(x)",
+                 "forall(i, 0, len(x), result[i]['x'] == x[i] and "
+                 "result[i]['logP'] == LPr(x[i]))"]),
+    "compute_acceptance": Contract(
+        "<abstract>", "FlowProposal.compute_acceptance",
+        params={"logL": "Real"}, trusted=True, returns="Real",
+        trusted_reason="fraction of the pool above a likelihood"),
+    "plot_pool": Contract("<abstract>", "FlowProposal.plot_pool",
+                          params={"x": "Any"}, trusted=True,
+                          trusted_reason="plotting"),
+})
+shape("PopModel", {}, methods={
+    "in_bounds": Contract(
+        "<abstract>", "PopModel.in_bounds", params={"x": PT},
+        trusted=True, trusted_reason="Model.in_bounds as the abstract "
+        "predicate InBounds", returns="Seq(Bool)",
+        ensures=["len(result) == len(x)",
+                 "forall(i, 0, len(x), result[i] == InBounds(x[i]))"]),
+    "batch_evaluate_log_likelihood": Contract(
+        "<abstract>", "PopModel.batch_evaluate_log_likelihood",
+        params={"x": LP_ARR}, trusted=True,
+        trusted_reason="C10; REQUIRES every point inside the prior bounds",
+        requires=["forall(i, 0, len(x), InBounds(x[i]['x']))"],
+        returns="Seq(Real)",
+        ensures=["len(result) == len(x)",
+                 "forall(i, 0, len(x), result[i] == LL(x[i]['x']))"]),
+})
+POP_MOD = ["self.r", "self.alt_dist", "self.indices", "self.x",
+           "self.samples", "self.population_time", "self.acceptance",
+           "self.population_acceptance", "self.populated_count",
+           "self.populated", "self._checked_population",
+           "self.flow.model.training"]
+contract(
+    PF, "FlowProposal.populate", variant_name="c09",
+    props=["C09"], self_shape="FlowPopulate", log_domain=False,
+    params={"worst_point": LP_ROW, "N": "Int", "plot": "Bool",
+            "r": "Opt(Real)", "max_samples": "Int"},
+    requires=["N >= 1", "self.drawsize >= 1",
+              "not self.accumulate_weights", "self.initialised",
+              # (log-q truncation only removes further rows: not modelled)
+              "not self.truncate_log_q"],
+    modifies=POP_MOD,
+    opaque_callees=["FlowProposal.forward_pass"],
+    # quick tier: radius handed in, no plotting / acceptance statistics (the
+    # radius selection only sets self.r; the thorough tier covers every
+    # combination of these flags)
+    quick_requires=["r is not None", "not plot", "not self.check_acceptance",
+                    "len(self.indices) == 0"],
+    loops={0: {
+        "declare": {"accept": "Opt(Seq(Bool))"},
+        "modifies": ["self.flow.model.training"],
+        "inv": ["n_accepted >= 0", "len(samples) == N", "n_proposed >= 0",
+                "n_accepted == 0 or n_proposed >= 1",
+                # the rows filled so far are in-bounds points
+                "forall(i, 0, (n_accepted if n_accepted < N else N), "
+                "InBounds(samples[i]))"],
+    }},
+    ensures=pool_inv() + [
+        # a flow-based pool has exactly the requested size
+        "len(self.samples) == N", "len(self.indices) == N",
+        "self.populated",
+    ],
+)
+
+contract(
+    PF, "FlowProposal.populate", variant_name="c09-acc",
+    props=["C09"], self_shape="FlowPopulate", log_domain=False,
+    params={"worst_point": LP_ROW, "N": "Int", "plot": "Bool",
+            "r": "Opt(Real)", "max_samples": "Int"},
+    requires=["N >= 1", "self.drawsize >= 1", "self.accumulate_weights",
+              "self.initialised", "not self.truncate_log_q"],
+    modifies=POP_MOD,
+    opaque_callees=["FlowProposal.forward_pass"],
+    # quick tier: radius handed in, no plotting / acceptance statistics (the
+    # radius selection only sets self.r; the thorough tier covers every
+    # combination of these flags)
+    quick_requires=["r is not None", "not plot", "not self.check_acceptance",
+                    "len(self.indices) == 0"],
+    loops={0: {
+        "declare": {"accept": "Opt(Seq(Bool))"},
+        "modifies": ["self.flow.model.training"],
+        "inv": ["n_accepted >= 0", "n_proposed >= 0",
+                "n_accepted == 0 or n_proposed >= 1",
+                "len(log_weights) == len(samples)",
+                "forall(i, 0, len(samples), InBounds(samples[i]))",
+                # n_accepted only changes when the acceptance mask is
+                # recomputed over all accumulated samples; reaching N ends
+                # the loop at once, so then the mask is the current one
+                "implies(n_accepted >= N, accept is not None and "
+                "len(accept) == len(samples) and "
+                "n_accepted == count(accept))"],
+    }},
+    ensures=pool_inv() + [
+        # exactly the requested size -- unless the documented escape hatch
+        # (max_samples proposals reached) ended the loop early
+        "len(self.samples) <= N",
+        "len(self.samples) == N or "
+        "final('n_proposed', 'Int') > max_samples",
+        "len(self.indices) == len(self.samples)", "self.populated",
     ],
 )
